@@ -1028,7 +1028,8 @@ def run_sec(prop, tier, seed, t0, replay_item=None):
 # ----------------------------------------------------------------------------- C18 keys
 
 TABLE_RE = re.compile(r'^<<"TABLE", "(.*)">>$')
-PW_POOL = {"empty": [""], "ascii": ["hunter2", "a b c", "p@ss:w0rd!"], "multibyte": ["pässwörd", "日本語のパスワード", "пароль"], "long": ["L" * 200, "x" * 1024]}
+PW_POOL = {"empty": [""], "ascii": ["hunter2", "a b c", "p@ss:w0rd!", " leading", "trailing ", " ", "tab\t"],
+           "multibyte": ["pässwörd", "日本語のパスワード", "пароль", "\u3000wide space", "ünïcode "], "long": ["L" * 200, "x" * 1024, " " + "y" * 300 + " "]}
 
 
 def run_c18(tier, seed, t0, replay_item=None):
@@ -1062,6 +1063,9 @@ def run_c18(tier, seed, t0, replay_item=None):
                 pw = rng.choice(PW_POOL[pwc])
                 # with an empty generation password the classes "same" and "empty" coincide; keep the table's expectation
                 items.append({"id": "C18-%s-%s-%s-%d-%d" % (role, fmt, pwc, seed, k), "role": role, "format": fmt, "password": pw, "tuples": tuples})
+            if pwc == "ascii":
+                # always one password with leading and trailing whitespace
+                items.append({"id": "C18-%s-%s-ws-%d" % (role, fmt, seed), "role": role, "format": fmt, "password": " lead and trail ", "tuples": tuples})
     res, crashed = core.run_batches(runner, "keys", items, per_batch=2, timeout=3000)
     by_id = {it["id"]: it for it in items}
     done, checks_n, infra, kinds = 0, 0, [], {}
